@@ -37,7 +37,8 @@ ASSUMPTIONS = [
     "the Chern oracle trusts system.rvec.iRvec / get_R_mat('Ham') and the convention H(k)=sum_R H(R)exp(+2 pi i k.R) "
     "(checked in every case against the energies returned by evaluate_k at a generic k)",
     "sign convention: sigma = -(e^2/h) C / c with Omega = curl(i<u|grad u>), as documented for calculators.static.AHC",
-    "Haldane_ptb ignores its delta argument on the current tree (C32); the check uses whatever model the builder returns",
+    "the Hamiltonian under test is whatever the builder returns (read back from the System_R): a builder defect such as "
+    "Haldane_ptb ignoring its delta argument (C32, since fixed) changes the set of gapped cases, not the verdicts",
     "seed drives only the generic matrix entries of zoo systems and a 0.02 perturbation of the explicit Chern models",
     "design deviation: random zoo 2D models were replaced by explicit multi-band Chern models (random ones are all C=0 "
     "and their gaps depend on the seed)",
@@ -96,7 +97,7 @@ def cases(tier, seed):
     phis = HALDANE_PHI if quick else HALDANE_PHI + ("-pi/4", "0.6pi")
     for b in ("Haldane_tbm", "Haldane_ptb"):
         for d, h2, ph in itertools.product(deltas, HALDANE_HOP2, phis):
-            # third grid (144) for the tbmodels builder only: Haldane_ptb repeats the same Hamiltonians
+            # third grid (144) for the tbmodels builder only: the pythtb builder yields the same Hamiltonians
             yield {"kind": "chern", "model": [b, d, h2, ph], "NK": nks if b == "Haldane_tbm" else [48, 96]}
     lats = ("sc", "hex") if quick else ("sc", "hex", "mono", "orth")
     cens = ("generic",) if quick else ("generic", "zero", "outside")
